@@ -65,3 +65,123 @@ def returns(fn_node):
         if isinstance(n, ast.Return) and n.value is not None:
             out.append((n, resolve(n.value, fn_node, _env=env)))
     return out
+
+
+# ------------------------------------------------------------------------------------------------ constant loops
+def _fold_int(e, env):
+    """value of an integer expression over literals and the names in `env` (+ - * // % and unary minus), else None."""
+    if isinstance(e, ast.Constant) and isinstance(e.value, int) and not isinstance(e.value, bool):
+        return e.value
+    if isinstance(e, ast.Name) and e.id in env and isinstance(env[e.id], int):
+        return env[e.id]
+    if isinstance(e, ast.UnaryOp) and isinstance(e.op, ast.USub):
+        v = _fold_int(e.operand, env)
+        return -v if v is not None else None
+    if isinstance(e, ast.BinOp) and isinstance(e.op, (ast.Add, ast.Sub, ast.Mult, ast.FloorDiv, ast.Mod)):
+        a, b = _fold_int(e.left, env), _fold_int(e.right, env)
+        if a is None or b is None:
+            return None
+        try:
+            return {ast.Add: a + b, ast.Sub: a - b, ast.Mult: a * b}.get(type(e.op)) if not isinstance(e.op, (ast.FloorDiv, ast.Mod)) \
+                else (a // b if isinstance(e.op, ast.FloorDiv) else a % b)
+        except ZeroDivisionError:
+            return None
+    if isinstance(e, ast.Call) and isinstance(e.func, ast.Attribute) and e.func.attr in ("mod", "remainder") and len(e.args) == 2 and not e.keywords:
+        a, b = _fold_int(e.args[0], env), _fold_int(e.args[1], env)
+        return a % b if a is not None and b else None
+    return None
+
+
+class _Subst(ast.NodeTransformer):
+    def __init__(self, env, cells):
+        self.env, self.cells = env, cells
+
+    def visit_Name(self, n):
+        if isinstance(n.ctx, ast.Load) and n.id in self.env and isinstance(self.env[n.id], int):
+            return ast.copy_location(ast.Constant(self.env[n.id]), n)
+        return n
+
+    def visit_Subscript(self, n):
+        self.generic_visit(n)
+        if isinstance(n.value, ast.Name) and n.value.id in self.cells:
+            i = _fold_int(n.slice, self.env)
+            if i is not None and 0 <= i < self.cells[n.value.id]:
+                return ast.copy_location(ast.Name(f"{n.value.id}__{i}", n.ctx), n)
+        return n
+
+    def visit_BinOp(self, n):
+        self.generic_visit(n)
+        v = _fold_int(n, {})
+        if v is not None and v >= 0:
+            return ast.copy_location(ast.Constant(v), n)
+        return n
+
+
+def unroll_constant_loops(fn_node, max_iter=6):
+    """a copy of the function in which (at its top level) every `for i in range(<literal>)` / `for i in (<literals>)` without
+    break / continue / else is replaced by its unrolled body with `i` (and integer locals computed from it, `b = (a + 1) % 3`)
+    substituted as constants - also inside lambdas, which is right only where the lambda is called during the iteration, so
+    loops whose lambdas are stored are left alone; small vectors allocated by np.empty / np.zeros (<literal>) that are filled
+    by constant-index stores become scalar locals `<name>__<i>`, and `a, b, c = <name>` unpacks them.  The result is a
+    normal form for rules that read straight-line code; (copy, number of loops unrolled)."""
+    import copy
+    fn = copy.deepcopy(fn_node)
+    cells = {}
+    for s in fn.body:
+        if isinstance(s, ast.Assign) and len(s.targets) == 1 and isinstance(s.targets[0], ast.Name) and isinstance(s.value, ast.Call) \
+                and isinstance(s.value.func, ast.Attribute) and s.value.func.attr in ("empty", "zeros") and len(s.value.args) == 1 \
+                and isinstance(s.value.args[0], ast.Constant) and isinstance(s.value.args[0].value, int) and 0 < s.value.args[0].value <= 6:
+            cells[s.targets[0].id] = s.value.args[0].value
+    # a cell vector must only be used through constant-index subscripts (checked after unrolling) or whole-vector unpacking
+    nloops = 0
+    out = []
+    for s in fn.body:
+        if isinstance(s, ast.For) and isinstance(s.target, ast.Name) and not s.orelse \
+                and not any(isinstance(x, (ast.Break, ast.Continue, ast.Return)) for x in ast.walk(s)):
+            vals = None
+            it = s.iter
+            if isinstance(it, ast.Call) and isinstance(it.func, ast.Name) and it.func.id == "range" and len(it.args) == 1 and not it.keywords:
+                k = _fold_int(it.args[0], {})
+                if k is not None and 0 < k <= max_iter:
+                    vals = list(range(k))
+            elif isinstance(it, (ast.Tuple, ast.List)) and 0 < len(it.elts) <= max_iter and all(_fold_int(e, {}) is not None for e in it.elts):
+                vals = [_fold_int(e, {}) for e in it.elts]
+            stored_lambda = any(isinstance(x, ast.Assign) and isinstance(x.value, ast.Lambda) for x in ast.walk(s)) or \
+                any(isinstance(x, ast.Call) and isinstance(x.func, ast.Attribute) and x.func.attr == "append" and x.args
+                    and isinstance(x.args[0], ast.Lambda) for x in ast.walk(s))
+            if vals is not None and not stored_lambda:
+                nloops += 1
+                for v in vals:
+                    env = {s.target.id: v}
+                    for b in s.body:
+                        b2 = copy.deepcopy(b)
+                        # integer locals derived from the loop variable
+                        if isinstance(b2, ast.Assign) and len(b2.targets) == 1:
+                            t, val = b2.targets[0], b2.value
+                            if isinstance(t, ast.Name) and _fold_int(val, env) is not None:
+                                env[t.id] = _fold_int(val, env)
+                                continue
+                            if isinstance(t, ast.Tuple) and isinstance(val, ast.Tuple) and len(t.elts) == len(val.elts) \
+                                    and all(isinstance(x, ast.Name) for x in t.elts) and all(_fold_int(x, env) is not None for x in val.elts):
+                                for x, y in zip(t.elts, val.elts):
+                                    env[x.id] = _fold_int(y, env)
+                                continue
+                        out.append(ast.fix_missing_locations(_Subst(env, cells).visit(b2)))
+                continue
+        out.append(s)
+    # whole-vector unpacking / constant subscripts of the cell vectors outside the loops
+    final = []
+    for s in out:
+        if isinstance(s, ast.Assign) and len(s.targets) == 1 and isinstance(s.targets[0], ast.Tuple) and isinstance(s.value, ast.Name) \
+                and s.value.id in cells and len(s.targets[0].elts) == cells[s.value.id] and all(isinstance(x, ast.Name) for x in s.targets[0].elts):
+            for i, x in enumerate(s.targets[0].elts):
+                final.append(ast.copy_location(ast.Assign([ast.Name(x.id, ast.Store())], ast.Name(f"{s.value.id}__{i}", ast.Load())), s))
+            continue
+        final.append(ast.fix_missing_locations(_Subst({}, cells).visit(s)))
+    fn.body = final
+    # a cell vector still used as a whole (passed on, returned, sliced): the scalarisation is not valid - give up
+    for n in ast.walk(fn):
+        if isinstance(n, ast.Name) and n.id in cells and isinstance(n.ctx, ast.Load):
+            return fn_node, 0
+    ast.fix_missing_locations(fn)
+    return fn, nloops
